@@ -738,6 +738,30 @@ func TestC08(t *testing.T) {
 	if t.Failed() {
 		return
 	}
+	// boundary sizes: every parametric family once at sizes just past a byte (257, 300 elements or levels): a fixed array
+	// of 256 entries, an 8-bit counter or index inside any entry point shows as a panic or as a lost element here. One
+	// process (shard 0) does it; each document goes through the totality oracle of the DSL entry points and, when it is
+	// accepted, through both graph builders and the printer.
+	if ev.Shard() == 0 {
+		var n int64
+		for _, fam := range c08Families {
+			for _, size := range []int{257, 300} {
+				doc := c08Family(fam, size)
+				n++
+				msg := c08DSL(doc)
+				if msg == "" {
+					msg = guarded("graph builders and printer on a "+fam+" document", len(doc), func() { _ = runOp("dslgraph", doc, nil) })
+				}
+				if msg != "" {
+					in := c08Input{Kind: "dsl", Text: doc}
+					msg = fmt.Sprintf("family %s at size %d: %s", fam, size, msg)
+					rec.Violation(in, msg)
+					t.Fatalf("%s", msg)
+				}
+			}
+		}
+		rec.Bulk(n, n, map[string]int64{"boundary-size:family-documents": n})
+	}
 	// scaling: a fixed number of triples per process, drawn with rapid (own small check count)
 	nTriples := 36
 	if ev.Thorough() {
